@@ -832,3 +832,102 @@ package openflow13
 //@   ensures r != nil && wf(r)
 
 //@ property C05 min-obligations 1500
+
+// ---------------------------------------------------------------------------------------------
+// C05 container instances (lemma functions in zz_lemmas_verif.go)
+//@ func lemmaContBucket(b, a1, a2) (d, err, b1, b2) [C05]
+//@   inlinecalls
+//@   modreach
+//@   unroll 4
+//@   modifies b.Actions, b.Length
+//@   requires b != nil && wf(a1) && wf(a2) && allzero(a1.pad)
+//@   ensures err == nil && d != nil
+//@   ensures err == nil ==> d.Length == 40 && d.Weight == b.Weight && d.WatchPort == b.WatchPort && d.WatchGroup == b.WatchGroup && len(d.Actions) == 2
+//@   ensures err == nil ==> typeis(d.Actions[0], *ActionOutput) && d.Actions[0].(*ActionOutput).Port == a1.Port && d.Actions[0].(*ActionOutput).MaxLen == a1.MaxLen
+//@   ensures err == nil ==> typeis(d.Actions[1], *ActionGroup) && d.Actions[1].(*ActionGroup).GroupId == a2.GroupId
+//@   ensures err == nil ==> len(b1) == 40 && len(b2) == len(b1) && bytes_eq(b2, 0, b1, 0, len(b1))
+
+//@ func lemmaContInstrActions(a1, a2, a0, write) (i, d, err, b1, b2) [C05]
+//@   inlinecalls
+//@   modreach
+//@   allowglobals
+//@   unroll 5
+//@   requires wf(a1) && wf(a2) && wf(a0) && allzero(a2.pad)
+//@   ensures err == nil && d != nil && typeis(d, *InstrActions)
+//@   ensures err == nil ==> d.(*InstrActions).Type == ite(write, 3, 4) && d.(*InstrActions).Length == 40 && len(d.(*InstrActions).Actions) == 3
+//@   ensures err == nil ==> typeis(d.(*InstrActions).Actions[0], *ActionGroup) && d.(*InstrActions).Actions[0].(*ActionGroup).GroupId == a0.GroupId
+//@   ensures err == nil ==> typeis(d.(*InstrActions).Actions[1], *ActionSetqueue) && d.(*InstrActions).Actions[1].(*ActionSetqueue).QueueId == a1.QueueId
+//@   ensures err == nil ==> typeis(d.(*InstrActions).Actions[2], *ActionOutput) && d.(*InstrActions).Actions[2].(*ActionOutput).Port == a2.Port && d.(*InstrActions).Actions[2].(*ActionOutput).MaxLen == a2.MaxLen
+//@   ensures err == nil ==> len(b1) == 40 && len(b2) == len(b1) && bytes_eq(b2, 0, b1, 0, len(b1))
+
+//@ func lemmaContMatch(port, mac, mask) (d, err, b1, b2) [C05]
+//@   inlinecalls
+//@   modreach
+//@   allowglobals
+//@   unroll 4
+//@   requires len(mac) == 6 && len(mask) == 6
+//@   ensures err == nil && d != nil
+//@   ensures err == nil ==> d.Type == 1 && d.Length == 28 && len(d.Fields) == 2
+//@   ensures err == nil ==> d.Fields[0].Class == 32768 && d.Fields[0].Field == 0 && !d.Fields[0].HasMask && d.Fields[0].Length == 4 && typeis(d.Fields[0].Value, *InPortField) && d.Fields[0].Value.(*InPortField).InPort == port
+//@   ensures err == nil ==> d.Fields[1].Class == 32768 && d.Fields[1].Field == 3 && d.Fields[1].HasMask && d.Fields[1].Length == 12 && typeis(d.Fields[1].Value, *EthDstField) && bytes_eq(d.Fields[1].Value.(*EthDstField).EthDst, 0, mac, 0, 6) && typeis(d.Fields[1].Mask, *EthDstField) && bytes_eq(d.Fields[1].Mask.(*EthDstField).EthDst, 0, mask, 0, 6)
+//@   ensures err == nil ==> len(b1) == 32 && len(b2) == len(b1) && bytes_eq(b2, 0, b1, 0, len(b1))
+
+//@ func lemmaContGroupMod(g, b, a) (d, err, b1, b2) [C05]
+//@   inlinecalls
+//@   modreach
+//@   allowglobals
+//@   unroll 4
+//@   modifies g.Buckets, g.Header.Length, b.Actions, b.Length
+//@   requires g != nil && b != nil && wf(a) && allzero(a.pad) && g.Header.Version == 4 && g.Header.Type == 15 && g.Command != 2
+//@   ensures err == nil && d != nil && typeis(d, *GroupMod)
+//@   ensures err == nil ==> d.(*GroupMod).Header.Xid == g.Header.Xid && d.(*GroupMod).Header.Length == 48 && d.(*GroupMod).Command == g.Command && d.(*GroupMod).Type == g.Type && d.(*GroupMod).GroupId == g.GroupId && len(d.(*GroupMod).Buckets) == 1
+//@   ensures err == nil ==> d.(*GroupMod).Buckets[0].Weight == b.Weight && d.(*GroupMod).Buckets[0].WatchPort == b.WatchPort && d.(*GroupMod).Buckets[0].WatchGroup == b.WatchGroup && len(d.(*GroupMod).Buckets[0].Actions) == 1 && typeis(d.(*GroupMod).Buckets[0].Actions[0], *ActionOutput) && d.(*GroupMod).Buckets[0].Actions[0].(*ActionOutput).Port == a.Port
+//@   ensures err == nil ==> len(b1) == 48 && len(b2) == len(b1) && bytes_eq(b2, 0, b1, 0, len(b1))
+
+//@ func lemmaContPacketOut(p, a, raw) (d, err, b1, b2) [C05]
+//@   inlinecalls
+//@   modreach
+//@   allowglobals
+//@   unroll 4
+//@   modifies p.Actions, p.ActionsLen, p.Data, p.Header.Length
+//@   requires p != nil && raw != nil && wf(a) && allzero(a.pad) && p.Header.Version == 4 && p.Header.Type == 13 && len(p.pad) <= 6 && allzero(p.pad) && blen(raw) <= 60000
+//@   ensures err == nil && d != nil && typeis(d, *PacketOut)
+//@   ensures err == nil ==> d.(*PacketOut).Header.Xid == p.Header.Xid && d.(*PacketOut).BufferId == p.BufferId && d.(*PacketOut).InPort == p.InPort && d.(*PacketOut).ActionsLen == 16 && len(d.(*PacketOut).Actions) == 1 && typeis(d.(*PacketOut).Actions[0], *ActionOutput) && d.(*PacketOut).Actions[0].(*ActionOutput).Port == a.Port
+//@   ensures err == nil ==> len(b1) == 40 + blen(raw) && len(b2) == len(b1) && bytes_eq(b2, 0, b1, 0, len(b1))
+
+//@ func lemmaContFlowMod(f, port, table, a) (d, err, b1, b2) [C05]
+//@   inlinecalls
+//@   modreach
+//@   allowglobals
+//@   unroll 4
+//@   modifies f.Match, f.Instructions, f.Header.Length
+//@   requires f != nil && wf(a) && allzero(a.pad) && f.Header.Version == 4 && f.Header.Type == 14 && f.Command != 3 && f.Command != 4 && len(f.pad) <= 2 && allzero(f.pad)
+//@   ensures err == nil && d != nil && typeis(d, *FlowMod)
+//@   ensures err == nil ==> d.(*FlowMod).Header.Xid == f.Header.Xid && d.(*FlowMod).Cookie == f.Cookie && d.(*FlowMod).CookieMask == f.CookieMask && d.(*FlowMod).TableId == f.TableId && d.(*FlowMod).Command == f.Command && d.(*FlowMod).IdleTimeout == f.IdleTimeout && d.(*FlowMod).HardTimeout == f.HardTimeout && d.(*FlowMod).Priority == f.Priority && d.(*FlowMod).BufferId == f.BufferId && d.(*FlowMod).OutPort == f.OutPort && d.(*FlowMod).OutGroup == f.OutGroup && d.(*FlowMod).Flags == f.Flags
+//@   ensures err == nil ==> d.(*FlowMod).Match.Type == 1 && d.(*FlowMod).Match.Length == 12 && len(d.(*FlowMod).Match.Fields) == 1 && typeis(d.(*FlowMod).Match.Fields[0].Value, *InPortField) && d.(*FlowMod).Match.Fields[0].Value.(*InPortField).InPort == port
+//@   ensures err == nil ==> len(d.(*FlowMod).Instructions) == 2 && typeis(d.(*FlowMod).Instructions[0], *InstrGotoTable) && d.(*FlowMod).Instructions[0].(*InstrGotoTable).TableId == table && typeis(d.(*FlowMod).Instructions[1], *InstrActions) && len(d.(*FlowMod).Instructions[1].(*InstrActions).Actions) == 1 && typeis(d.(*FlowMod).Instructions[1].(*InstrActions).Actions[0], *ActionOutput) && d.(*FlowMod).Instructions[1].(*InstrActions).Actions[0].(*ActionOutput).Port == a.Port
+//@   ensures err == nil ==> len(b1) == 96 && len(b2) == len(b1) && bytes_eq(b2, 0, b1, 0, len(b1))
+
+//@ func lemmaContBundleAddGroupMod(id, flags, g, b, a) (v, d, err, b1, b2) [C05]
+//@   inlinecalls
+//@   recurse 1
+//@   modreach
+//@   allowglobals
+//@   unroll 4
+//@   modifies g.Buckets, g.Header.Length, b.Actions, b.Length
+//@   requires g != nil && b != nil && wf(a) && allzero(a.pad) && g.Header.Version == 4 && g.Header.Type == 15 && g.Command != 2
+//@   ensures err == nil && d != nil && typeis(d, *VendorHeader) && typeis(d.(*VendorHeader).VendorData, *BundleAdd) && typeis(d.(*VendorHeader).VendorData.(*BundleAdd).Message, *GroupMod)
+//@   ensures err == nil ==> d.(*VendorHeader).VendorData.(*BundleAdd).BundleID == id && d.(*VendorHeader).VendorData.(*BundleAdd).Flags == flags && d.(*VendorHeader).VendorData.(*BundleAdd).Message.(*GroupMod).GroupId == g.GroupId && len(d.(*VendorHeader).VendorData.(*BundleAdd).Message.(*GroupMod).Buckets) == 1
+//@   ensures err == nil ==> len(b1) == 72 && len(b2) == len(b1) && bytes_eq(b2, 0, b1, 0, len(b1))
+
+//@ func lemmaContConnTrack(flags, zone, ipMin, ipMax, pmin) (c, d, err, b1, b2) [C05]
+//@   inlinecalls
+//@   recurse 1
+//@   modreach
+//@   allowglobals
+//@   unroll 4
+//@   requires len(ipMin) == 4 && len(ipMax) == 4
+//@   ensures err == nil && d != nil && typeis(d, *NXActionConnTrack)
+//@   ensures err == nil ==> d.(*NXActionConnTrack).Flags == flags && d.(*NXActionConnTrack).ZoneSrc == zone && d.(*NXActionConnTrack).Length == c.Length && len(d.(*NXActionConnTrack).actions) == 1 && typeis(d.(*NXActionConnTrack).actions[0], *NXActionCTNAT)
+//@   ensures err == nil ==> d.(*NXActionConnTrack).actions[0].(*NXActionCTNAT).Flags == 1 && d.(*NXActionConnTrack).actions[0].(*NXActionCTNAT).rangePresent == 19 && len(d.(*NXActionConnTrack).actions[0].(*NXActionCTNAT).rangeIPv4Min) == 16 && bytes_eq(d.(*NXActionConnTrack).actions[0].(*NXActionCTNAT).rangeIPv4Min, 12, ipMin, 0, 4) && len(d.(*NXActionConnTrack).actions[0].(*NXActionCTNAT).rangeIPv4Max) == 16 && bytes_eq(d.(*NXActionConnTrack).actions[0].(*NXActionCTNAT).rangeIPv4Max, 12, ipMax, 0, 4) && d.(*NXActionConnTrack).actions[0].(*NXActionCTNAT).rangeProtoMin != nil && *d.(*NXActionConnTrack).actions[0].(*NXActionCTNAT).rangeProtoMin == pmin
+//@   ensures err == nil ==> len(b2) == len(b1) && bytes_eq(b2, 0, b1, 0, len(b1))
